@@ -250,9 +250,15 @@ func (h *httpServer) checkIPWhitelist(addr string) bool {
 	if ip.IsLoopback() {
 		return true
 	}
-	whitelist := h.cfg.GetModuleConfig().RPC.Whitelist
-	// "*" means allow all IPs, consistent with rpc.InitIPWhitelist
-	if len(whitelist) == 0 || (len(whitelist) == 1 && whitelist[0] == "*") {
+	rpcCfg := h.cfg.GetModuleConfig().RPC
+	isWildcard := func(list []string) bool { return len(list) == 1 && list[0] == "*" }
+	// same list as rpc.InitIPWhitelist: "whitlist" is the legacy spelling of "whitelist" and is
+	// used when "whitelist" is empty; a single "*" under either key means allow all IPs
+	whitelist := rpcCfg.Whitelist
+	if len(whitelist) == 0 || isWildcard(rpcCfg.Whitlist) {
+		whitelist = rpcCfg.Whitlist
+	}
+	if len(whitelist) == 0 || isWildcard(whitelist) {
 		return true
 	}
 	ipv4 := ip.To4()
